@@ -32,8 +32,12 @@ def _listing(d):
     return sorted(out)
 
 
-def entry_job(text, mode, expect_fail, tag, want_mc=False, enduse=1):
+NAME_SHAPES = ['{}.out', '{}.v2.out', '{}.2024-01.run.out', '{} with space.out', '{}.OUT.txt']
+
+
+def entry_job(text, mode, expect_fail, tag, want_mc=False, enduse=1, namev=0):
     mon = Mon('C20')
+    shape = NAME_SHAPES[namev % len(NAME_SHAPES)]
     tmp = tempfile.mkdtemp(prefix='gxv-c20-', dir=os.environ.get('GXV_TMP'))
     start = os.path.join(tmp, 'start')
     os.makedirs(os.path.join(start, 'sub'))
@@ -48,23 +52,25 @@ def entry_job(text, mode, expect_fail, tag, want_mc=False, enduse=1):
     if mode == 'none':
         exp_out = os.path.join(start, 'HDR.out')
     elif mode == 'relative':
-        args.append('my_result.out')
-        exp_out = os.path.join(start, 'my_result.out')
+        args.append(shape.format('my_result'))
+        exp_out = os.path.join(start, shape.format('my_result'))
     elif mode == 'relative-subdir':
-        args.append(os.path.join('sub', 'r2.out'))
-        exp_out = os.path.join(start, 'sub', 'r2.out')
+        args.append(os.path.join('sub', shape.format('r2')))
+        exp_out = os.path.join(start, 'sub', shape.format('r2'))
     elif mode == 'absolute':
-        exp_out = os.path.join(elsewhere, 'abs_result.out')
+        exp_out = os.path.join(elsewhere, shape.format('abs_result'))
         args.append(exp_out)
     else:
         exp_out = os.path.join(elsewhere, 'no', 'such', 'dir', 'x.out')
         args.append(exp_out)
-    exp_json = exp_out[:-4] + '.json'
+    # the JSON goes next to the report under the report's stem (everything before the LAST dot of the file name)
+    exp_json = os.path.join(os.path.dirname(exp_out), os.path.splitext(os.path.basename(exp_out))[0] + '.json')
+    wit_name = os.path.basename(exp_out)
     e = env.child_env()
     e.pop(env.GUARD, None)
     e.pop(env.OBSERVER_ENV, None)
     before = _listing(start)
-    wit = {'mode': mode, 'tag': tag}
+    wit = {'mode': mode, 'tag': tag, 'output_name': wit_name}
     try:
         p = subprocess.run(args, cwd=start, env=e, capture_output=True, text=True, timeout=600)
     except subprocess.TimeoutExpired:
@@ -91,7 +97,7 @@ def entry_job(text, mode, expect_fail, tag, want_mc=False, enduse=1):
         mon.check('success-exits-zero', rc == 0, mechanism='C20/successful-simulation-exits-nonzero', rc=rc, stderr=p.stderr[-300:], **wit)
         mon.check('report-at-requested-path', cli_report is not None, mechanism='C20/report-not-at-requested-path:' + mode,
                   expected=os.path.relpath(exp_out, tmp), created=[x for x in after if x not in before][:5], **wit)
-        mon.check('json-at-requested-path', os.path.exists(exp_json), mechanism='C20/json-not-next-to-report:' + mode,
+        mon.check('json-at-requested-path', os.path.exists(exp_json), mechanism='C20/json-not-next-to-report:' + mode + (':multi-dot-name' if wit_name.count('.') > 1 else ''),
                   expected=os.path.relpath(exp_json, tmp), created=[x for x in after if x not in before][:5], **wit)
         created = [x for x in after if x not in before]
         allowed = {os.path.relpath(exp_out, start), os.path.relpath(exp_json, start)} if exp_out.startswith(start) else set()
@@ -181,7 +187,7 @@ def run(ctx):
             eu = None
         jobs.append({'fn': 'gxv.props.c20:entry_job', 'timeout': 900,
                      'args': {'text': text, 'mode': mode, 'expect_fail': False, 'tag': {'cell': list(cell)},
-                              'want_mc': eu is not None and i % 4 == 0, 'enduse': eu or 1}})
+                              'want_mc': eu is not None and i % 4 == 0, 'enduse': eu or 1, 'namev': i // len(MODES)}})
     for name in ['example3', 'example4', 'example10_HP', 'example11_AC', 'example13', 'S-DAC-GT'] + ([] if ctx.quick else ['example1', 'example12_DH', 'example1_addons']):
         case, raw = gen.example_case(name)
         jobs.append({'fn': 'gxv.props.c20:entry_job', 'timeout': 900,
